@@ -4,6 +4,7 @@
    proper prefixes, absence of undocumented exceptions. *)
 From Coq Require Import ZArith List Bool.
 From CP Require Import Core.Bytes Core.Result Frame.LVFrame Frame.Units Frame.Entry Frame.Ssl2 Frame.SshPacket Ssh.Record Lemmas.UnitLemmas Lemmas.UnitInstances Lemmas.Ssl2Lemmas Lemmas.SshPacketLemmas.
+From CP Require Import Spec.SshSpec Lemmas.SshLemmas.
 Open Scope Z_scope.
 
 Theorem C03_tls_record : frame_unit_ok parse_tls_record compose_tls_record always (lv_declared 5 tls_record_plen).
@@ -71,3 +72,9 @@ Theorem C03_ssh_roundtrip : forall msg payload sfx,
   ssh_parse msg (ssh_compose payload ++ sfx)
   = Ok ((payload, repeat Byte.x00 (Z.to_nat (padding_length (zlen payload)))), zlen (ssh_compose payload)).
 Proof. exact ssh_roundtrip. Qed.
+
+(* SSH identification string (RFC 4253 4.2): the reported length n is the number of bytes up to and including the first LF,
+   1 <= n <= 255, and the first n bytes alone or followed by anything else decode to the same versions, comment and n *)
+Theorem C03_banner_self_delimiting : forall l p sw c n, dec_banner l = Some (p, sw, c, n) ->
+  1 <= n <= 255 /\ n <= zlen l /\ forall s, dec_banner (firstn (Z.to_nat n) l ++ s) = Some (p, sw, c, n).
+Proof. exact banner_self_delimiting. Qed.
